@@ -57,6 +57,7 @@ def main(argv=None) -> int:
     c = sub.add_parser("check")
     c.add_argument("pid")
     c.add_argument("--tier", default=os.environ.get("VERIF_TIER", "quick"), choices=["quick", "thorough"])
+    c.add_argument("--no-evidence", action="store_true", help="development: do not rewrite evidence/<ID>.json")
     s = sub.add_parser("selftest")
     s.add_argument("pids", nargs="*")
     s.add_argument("-j", type=int, default=16)
@@ -67,6 +68,8 @@ def main(argv=None) -> int:
     a = ap.parse_args(argv)
     seed = int(os.environ.get("VERIF_SEED", "0") or 0)
     if a.cmd == "check":
+        if a.no_evidence:
+            os.environ["PVS_NO_EVIDENCE"] = "1"
         return guarded(lambda: cmd_check(a.pid.upper(), a.tier, seed))
     if a.cmd == "selftest":
         from .selftest import run_selftest
